@@ -171,7 +171,7 @@ func runC01(c *run.Ctx) {
 		nbytes = 6
 	}
 	bsSpecs := buildAll(specsByName("bpbr-comments", "everything-named", "ugc"))
-	Bytes(c, byteAlpha, 1, nbytes, func(in []byte) { eval(bsSpecs, in, false) })
+	BytesS(c, "bytes", byteAlpha, 1, nbytes, func(in []byte) { eval(bsSpecs, in, false) })
 	c.Notes["policies"] = float64(0)
 	if c.Shard == 0 {
 		c.Notes["policies"] = float64(len(both))
